@@ -46,6 +46,12 @@ def tag(t):
     return t[0] if isinstance(t, tuple) and t else None
 
 
+# configuration dimension: is the store root an absolute path?  With a relative store_path
+# (e.g. "rel_store") os.path.join / pathlib do NOT discard what precedes a later component
+# that is itself built from the root, so the prefix is doubled.
+RELATIVE_ROOT = [False]
+
+
 def J(parts):
     """join(parts) — flattened; a rooted later part restarts the path (os.path.join /
     pathlib semantics for absolute components: idiom (1) of DESIGN §2.2 A2)."""
@@ -55,12 +61,13 @@ def J(parts):
             # os.path.join / pathlib: an absolute component discards everything before it
             flat = [("abspath", p[1])]
             continue
+        restart = is_rooted(p) and not (RELATIVE_ROOT[0] and flat)
         if tag(p) == "join":
-            if is_rooted(p):
+            if restart:
                 flat = list(p[1])
             else:
                 flat.extend(p[1])
-        elif is_rooted(p):
+        elif restart:
             flat = [p]
         else:
             flat.append(p)
